@@ -33,6 +33,7 @@ Fold(evs, k, def, pos, act, stable, poss) ==
            IF Cover(stable[e.p], e.ip) /\ ~e.res THEN k
            ELSE IF e.res /\ ~Cover(poss[e.p], e.ip) THEN k
            ELSE Fold(evs, k + 1, def, pos, act \ {e.p}, stable, poss)
+      [] e.k = "crash" -> k                 \* a goroutine of the run crashed inside the filter
       [] OTHER -> Fold(evs, k + 1, def, pos, act, stable, poss)
 JudgeOK == LET r == Fold(Cases[i].evs, 1, {}, {}, {}, <<>>, <<>>) IN r = 0 \/ PrintT(<<"BAD", i, r>>)
 =============================================================================
